@@ -128,6 +128,28 @@ example :
     let s' := ((handleGetex c [b "getex", b "k", b "PERSIST"]).run c s).1
     getExpiry s' 0 (b "k") = none ∧ (getValues { c with now := 999999 } s' [b "k"]).2 = [Val.str (b "v")] := by decide
 
+/-- **TYPE treats an expired key as missing** (repaired in /repo by a `fix:` commit; before it the nil that the
+    value read returns for an expired key made the handler panic). For every state and every stored key whose
+    deadline has passed: the answer is the "does not exist" error of a missing key. -/
+theorem type_on_expired_reads_missing (c : Ctx) (s : State) (k : Bytes) (e : Entry)
+    (h : s.lookup c.db k = some e) (hexp : e.expired c.now = true) :
+    ((handleType c [b "type", k]).run c s).2 = .done (.err (b "key " ++ k ++ b " does not exist")) := by
+  have hg := getValues_expired c s k e h hexp
+  simp [handleType, keysExist_single, h, hg]
+
+/-- … and so it does for an entry that holds only a deadline (value nil), leaving the state as it is -/
+theorem type_on_valueless_entry (c : Ctx) (s : State) (k : Bytes) (ex : Option Int)
+    (h : s.lookup c.db k = some ⟨.nil, ex⟩) (hlive : (⟨.nil, ex⟩ : Entry).expired c.now = false) :
+    (handleType c [b "type", k]).run c s = (s, .done (.err (b "key " ++ k ++ b " does not exist"))) := by
+  simp [handleType, keysExist_single, h, getValues_live c s k _ h hlive]
+
+/-- non-vacuity (the former witness of the panic): SET k v PX 1000; 1001 ms later GETEX k PX 1000; TYPE k -/
+example :
+    let c : Ctx := { db := 0, now := 2001 }
+    let s : State := { dbs := [(0, ⟨[(b "k", ⟨.str (b "v"), some 2000⟩)], [b "k"]⟩)], mem := 57 }
+    ((handleType c [b "type", b "k"]).run c ((handleGetex c [b "getex", b "k", b "px", b "1000"]).run c s).1).2
+      = .done (.err (b "key k does not exist")) := by decide
+
 /-! ### where "unobservable once expired" fails (model witnesses, class `expired-key-still-exists`) -/
 
 /-- TTL on a key whose deadline has passed answers 0 instead of -2 -/
